@@ -402,6 +402,13 @@ pub fn run(ctx: &Ctx) -> i32 {
                 texts.push(format!("{chain}{sep}-fprint f"));
                 texts.push(format!("-print{sep}{chain}"));
                 texts.push(format!("-quit{sep}{chain}{sep}-print0"));
+                if n <= 6 {
+                    texts.push(format!("! {chain}{sep}-print"));
+                    texts.push(format!("! {chain}"));
+                    texts.push(format!("{chain}{sep}! -print0"));
+                    texts.push(format!("! ( {chain} ){sep}-fprint f"));
+                    texts.push(format!("! ! {chain}{sep}-print"));
+                }
             }
         }
         acc = acc.merge(speclib::report::par_items(&texts, |text, acc| {
